@@ -26,14 +26,17 @@ CLAIMED = {
     'C03': ('DESIGN.md C03',
             'Bounded solver-based check: submit/execute/cancel histories on the real Sandbox driver, Order, Position and '
             'FuturesExchange with symbolic balance, fee, quantities and prices; after every operation z3 proves wallet, position, '
-            'entry price, unrealised PnL and available margin equal to the average-cost margin model and the rejection rule.',
+            'entry price, unrealised PnL and available margin equal to the average-cost margin model and the rejection rule. '
+            'H-STEP: one operation from an arbitrary symbolic pre-state (position, resting orders, balance) proves the same equalities inductively.',
             'floats as reals; leverage enumerated (1..125 set); histories up to length 4 exhaustive for LIMIT/MARKET kinds plus targeted '
             'length-5 and two-symbol histories; nlsat fallback for the few nonlinear queries z3 default leaves unknown',
             TECH),
     'C04': ('DESIGN.md C04',
             'Bounded solver-based check: submit/execute/cancel histories on the real Sandbox driver, Order, Position and SpotExchange '
             'with symbolic balance, fee, quantities, prices; after every operation z3 proves quote/base balances and position size equal '
-            'to the cash-account model, no negative balance, no short, and the exact rejection rule (also after cancellations).',
+            'to the cash-account model, no negative balance, no short, and the exact rejection rule (also after cancellations). '
+            'H-STEP: one operation from an arbitrary symbolic pre-state under the representation invariant (flat states carry resting buys only; '
+            'the reserved-sell sums equal the active sells) proves the model step and the invariant.',
             'floats as reals; Decimal helpers as exact +,- (their exactness is a clause of C17); histories up to length 4 exhaustive, '
             '5-6 targeted (cancel then resubmit)',
             TECH),
@@ -41,7 +44,8 @@ CLAIMED = {
             'Bounded solver-based check: every operation skeleton up to length 4 (5 thorough) over submit/execute/cancel/repeated '
             'calls/cancel-all/pending-market flush/update_active_orders on up to 3 real orders, spot and futures, symbolic values: status '
             'history, no-effect of calls on final orders (z3 equality of every balance, position, margin-table and trade-table observable), '
-            'active registry and one-trade-per-fill; plus the lifecycle invariants on every order of symbolic backtest sessions.',
+            'active registry and one-trade-per-fill; plus the lifecycle invariants on every order of symbolic backtest sessions, where the '
+            'registry reported at every before()/after() is proved equal to the accepted orders without a fill/cancel event.',
             'floats as reals; at most 3 orders; passive strategy attached (it cancels resting orders as the strategy layer does)',
             TECH),
     'C09': ('DESIGN.md C09',
@@ -56,8 +60,9 @@ CLAIMED = {
             'Bounded solver-based check: the real Strategy/Broker/Sandbox inside research.backtest on symbolic candles with declared '
             'prices symbolic around the 0.015% boundary; per recorded order z3 proves declared (qty, price), the routing rule '
             '(MARKET iff near, LIMIT/STOP by side), reduce-only closing-side exits; per strategy step an injective map from active SL/TP '
-            'orders to the latest declaration, nothing active after close, entries cancelled iff should_cancel_entry().',
-            'floats as reals (threshold is the exact double 0.00015, written like is_price_near); templates T1-T6; valid-side exits assumed; '
+            'orders to the latest (public) declaration and, while no exit of that kind has been filled in the trade, an order for every declared '
+            'row; nothing active after close, entries cancelled iff should_cancel_entry().',
+            'floats as reals (threshold is the exact double 0.00015, written like is_price_near); templates T1-T7 (T7: consecutive trades with equal hook-declared exits); valid-side exits assumed; '
             '2-3 symbolic candles',
             TECH),
     'C06': ('DESIGN.md C06',
@@ -79,7 +84,8 @@ CLAIMED = {
             'Bounded solver-based check: _fill_absent_candles with provided candles at symbolic integer minute offsets and symbolic OHLCV; '
             'CandlesState.add_candle / add_multiple_1m_candles with symbolic integer timestamps against a list model; research.backtest '
             'with a symbolic distance between the leading candles.',
-            'interval length <= 5 (6), <= 3 (4) provided candles, <= 5 adds; provided candles sorted by time; an older unknown candle may '
+            'interval length <= 5 (6), <= 3 (4) provided candles, <= 5 adds on an empty store and 1-2 adds on a store prefilled with 19-25 (up to 100) '
+            'candles; provided candles sorted by time; an older unknown candle may '
             'be rejected as long as the store is unchanged',
             TECH),
     'C17': ('DESIGN.md C17',
@@ -116,13 +122,14 @@ CLAIMED = {
             'strategy and the Order wrappers log everything observable; z3 proves every log entry with time <= X[t].timestamp equal in both '
             'runs (by transitivity: equal for any two tails), in the step and the fast simulator.',
             'floats as reals; sessions of 3-10 minutes, 1-3 symbolic minutes in the prefix and in the tail; templates T1, T1tp, T5, T7; '
-            'routes 1m, 3m, 5m, 1m+5m data, two symbols; warm-up 3',
+            'routes 1m, 3m, 5m, 1m+5m data, two symbols; warm-up 2-3 (both simulators)',
             TECH),
     'C11': ('DESIGN.md C11',
             'Bounded solver-based check: every path runs in a freshly forked process; the probe call runs in a fresh process (a further '
             'fork of the pristine process) and again after another session A (symbolic fee/balance; other exchange name, spot/futures, '
             'leverage, routes, warm-up, fast mode, aborted by a hook exception or InsufficientMargin); z3 proves fills, trades (pnl, fee), '
-            'account type and balances of the later probe equal to the fresh one, and the arguments unmodified.',
+            'account type and balances of the later probe equal to the fresh one, the values its strategy reads at every step (shared_vars '
+            'counter, a non-sequential indicator, the candles helpers.slice_candles passes on) equal, and the arguments unmodified.',
             'floats as reals; 6-candle concrete sessions with symbolic account parameters; one prior session; metrics not observed here '
             '(C16); a fresh process is modelled by a fork of a process that imported jesse but never ran a session',
             TECH),
